@@ -4,6 +4,7 @@ import Verif.Props.C17
 #print axioms Verif.Props.C17.inv_reach
 #print axioms Verif.Props.C17.conservation
 #print axioms Verif.Props.C17.no_lost_wake
+#print axioms Verif.Props.C17.parked_waker_is_current
 #print axioms Verif.Props.C17.parked_is_armed
 #print axioms Verif.Props.C17.task_state_exclusive
 #print axioms Verif.Props.C17.flags_and_registration
